@@ -39,6 +39,8 @@ func init() {
 			os.Setenv("LISTEN_PID", "12x")
 		case "own-padded":
 			os.Setenv("LISTEN_PID", " "+strconv.Itoa(os.Getpid()))
+		case "own-suffix":
+			os.Setenv("LISTEN_PID", strconv.Itoa(os.Getpid())+"abc")
 		default:
 			os.Unsetenv("LISTEN_PID")
 		}
@@ -268,6 +270,19 @@ func c20One(r *fw.Run, c *c20Case, idx int) {
 			defer pw.Close()
 		}
 	}
+	// when a descriptor will be selected, the address argument names an existing filesystem entry (as it does under
+	// systemd, where it is the path of the activated socket): activation must leave it alone
+	fsFallback := ""
+	if sel >= 0 && kinds[sel] == "socket" {
+		fsFallback = filepath.Join(r.WorkDir, tag+"-fb")
+		if idx%2 == 0 {
+			os.WriteFile(fsFallback, []byte("not a socket"), 0600)
+		} else if l, err := net.Listen("unix", fsFallback); err == nil {
+			l.(*net.UnixListener).SetUnlinkOnClose(false)
+			defer l.Close()
+		}
+		fallback = fsFallback
+	}
 	exe, _ := os.Executable()
 	cmd := exec.Command(exe, "--helper", "activ", "unix:"+fallback, product, c.PidMode)
 	cmd.ExtraFiles = files[:3]
@@ -339,6 +354,12 @@ func c20One(r *fw.Run, c *c20Case, idx int) {
 	} else if wrong != "" {
 		report("expected-endpoint-not-served", "%s answered with %q", expWhat, clip(wrong, 200))
 	}
+	if fsFallback != "" {
+		if _, err := os.Lstat(fsFallback); err != nil {
+			report("address-argument-touched", "the inherited descriptor was selected, yet the filesystem entry named by the ignored address argument (%s) was removed: %v", fsFallback, err)
+		}
+		r.Count("ignored_address_left_alone_checks", 1)
+	}
 	// no other candidate is served
 	others := []string{}
 	for i := 0; i < 3; i++ {
@@ -386,7 +407,11 @@ func runC20(r *fw.Run) {
 			cases = append(cases, &c20Case{PidMode: "own", FDS: sp(fds), FDNames: sp(nm), NamesVar: "extra", Kind: "socket", OtherK: ok})
 		}
 	}
-	cases = append(cases, &c20Case{PidMode: "own-padded", FDS: sp("1"), NamesVar: "extra", Kind: "socket", OtherK: "socket"})
+	cases = append(cases, &c20Case{PidMode: "own-padded", FDS: sp("1"), NamesVar: "extra", Kind: "socket", OtherK: "socket"},
+		&c20Case{PidMode: "own-suffix", FDS: sp("1"), NamesVar: "extra", Kind: "socket", OtherK: "socket"})
+	for _, fds := range []string{"1x", "1.5", "1,3", "2-1", "3;", "0x1", "1e0", "١"} {
+		cases = append(cases, &c20Case{PidMode: "own", FDS: sp(fds), FDNames: sp("varlink:x:y"), NamesVar: "extra", Kind: "socket", OtherK: "socket"})
+	}
 	fw.Parallel(16, len(cases), func(w, i int) {
 		c := cases[i]
 		if c.FDS != nil && (*c.FDS == "4" || *c.FDS == "2147483648" || *c.FDS == "+1" || *c.FDS == "01") {
